@@ -12,6 +12,7 @@ import (
 	"bytes"
 	"context"
 	"crypto/sha256"
+	stdx509 "crypto/x509"
 	"encoding/base64"
 	"encoding/json"
 	"errors"
@@ -34,8 +35,33 @@ import (
 )
 
 type c12Rsp struct {
-	status int
-	body   []byte
+	status      int
+	body        []byte
+	hdr         http.Header // extra response headers (arbitrary; the client must not care)
+	netErr      bool        // the transport fails instead of answering
+	cutAt       int         // > 0: the body reader fails after this many octets
+	viaRedirect bool        // the client first gets a 302 with a Location and follows it to this response (GET only)
+}
+
+type c12FailingReader struct {
+	r   io.Reader
+	n   int
+	err error
+}
+
+func (f *c12FailingReader) Read(p []byte) (int, error) {
+	if f.n <= 0 {
+		return 0, f.err
+	}
+	if len(p) > f.n {
+		p = p[:f.n]
+	}
+	n, err := f.r.Read(p)
+	f.n -= n
+	if err == io.EOF {
+		err = f.err
+	}
+	return n, err
 }
 
 // c12Script answers the successive requests of one client call; when it runs out it ends the context.
@@ -59,35 +85,80 @@ func (s *c12Script) RoundTrip(req *http.Request) (*http.Response, error) {
 	}
 	r := &s.rsps[s.i]
 	s.i++
+	if r.netErr {
+		return nil, errors.New("scripted transport failure")
+	}
 	s.last = r
+	h := http.Header{"Content-Type": {"application/json"}}
+	for k, v := range r.hdr {
+		h[k] = v
+	}
+	var body io.Reader = bytes.NewReader(r.body)
+	if r.cutAt > 0 {
+		body = &c12FailingReader{r: body, n: r.cutAt, err: errors.New("scripted read failure")}
+	}
 	return &http.Response{StatusCode: r.status, Status: fmt.Sprintf("%d %s", r.status, http.StatusText(r.status)), Proto: "HTTP/1.1", ProtoMajor: 1, ProtoMinor: 1,
-		Header: http.Header{"Content-Type": {"application/json"}}, Body: io.NopCloser(bytes.NewReader(r.body)), ContentLength: int64(len(r.body)), Request: req}, nil
+		Header: h, Body: io.NopCloser(body), ContentLength: -1, Request: req}, nil
 }
 
 type c12Silent struct{}
 
 func (c12Silent) Printf(string, ...interface{}) {}
 
-// c12Call runs f against a fresh client wired to the script, inside a bubble; returns f's panic text.
-func c12Call(k *verifkit.SKey, rsps []c12Rsp, f func(ctx context.Context, c *LogClient)) (sc *c12Script, panicText string) {
-	sc = &c12Script{rsps: rsps}
+// c12Sess is ONE client (so any state it keeps between calls is exercised) inside one bubble.
+type c12Sess struct {
+	sc *c12Script
+	cl *LogClient
+}
+
+// call runs one client call against the given responses.
+func (s *c12Sess) call(rsps []c12Rsp, f func(ctx context.Context, c *LogClient)) (panicText string) {
+	ctx, cancel := context.WithTimeout(context.Background(), 24*time.Hour)
+	defer cancel()
+	s.sc.rsps, s.sc.i, s.sc.last, s.sc.cancel = rsps, 0, nil, cancel
+	return verifkit.Guard(func() { f(ctx, s.cl) })
+}
+
+// c12Session builds one client for key k (nil: no key) and hands it to body.
+func c12Session(k *verifkit.SKey, body func(s *c12Sess)) (setupErr string) {
 	synctest.Run(func() {
-		ctx, cancel := context.WithTimeout(context.Background(), 24*time.Hour)
-		defer cancel()
-		sc.cancel = cancel
+		sc := &c12Script{}
 		opts := jsonclient.Options{Logger: c12Silent{}}
 		if k != nil {
 			opts.PublicKeyDER = k.SPKI
 		}
 		c, err := New("http://log.example/prefix/", &http.Client{Transport: sc}, opts)
 		if err != nil {
-			panicText = "client.New: " + err.Error()
+			setupErr = "client.New: " + err.Error()
 			return
 		}
-		panicText = verifkit.Guard(func() { f(ctx, c) })
+		body(&c12Sess{sc: sc, cl: c})
 	})
 	return
 }
+
+// c12Call runs f against a fresh client wired to the script, inside a bubble; returns f's panic text.
+func c12Call(k *verifkit.SKey, rsps []c12Rsp, f func(ctx context.Context, c *LogClient)) (sc *c12Script, panicText string) {
+	if e := c12Session(k, func(s *c12Sess) {
+		sc = s.sc
+		panicText = s.call(rsps, f)
+	}); e != "" {
+		return &c12Script{}, e
+	}
+	return
+}
+
+// c12On: on the given session if there is one, else on a fresh client.
+func c12On(sess *c12Sess, k *verifkit.SKey, rsps []c12Rsp, f func(ctx context.Context, c *LogClient)) (*c12Script, string) {
+	if sess != nil {
+		p := sess.call(rsps, f)
+		return sess.sc, p
+	}
+	return c12Call(k, rsps, f)
+}
+
+var c12HeaderPool = []http.Header{nil, nil, {"Retry-After": {"120"}}, {"Content-Type": {"text/html"}}, {"Content-Type": {""}}, {"X-Frame-Options": {"deny"}, "Cache-Control": {"no-store"}},
+	{"Retry-After": {"Wed, 21 Oct 2065 07:28:00 GMT"}}, {"Content-Encoding": {"identity"}}, {"Set-Cookie": {"a=b"}}, {"Content-Length": {"3"}}, {"Www-Authenticate": {"Basic"}}}
 
 // c12Err classifies an error the way the property distinguishes: RspError (status, body) or anything else.
 func c12Err(out *verifkit.Out, key string, err error, sc *c12Script) string {
@@ -95,12 +166,20 @@ func c12Err(out *verifkit.Out, key string, err error, sc *c12Script) string {
 	if errors.As(err, &re) {
 		if sc.last == nil {
 			out.Fail(key+" rsperror-without-response", err.Error())
-		} else if re.StatusCode != sc.last.status || !bytes.Equal(re.Body, sc.last.body) {
+		} else if want := c12Received(sc.last); re.StatusCode != sc.last.status || !bytes.Equal(re.Body, want) {
 			out.Fail(key+" rsperror-wrong-status-or-body", fmt.Sprintf("RspError{%d, %q}, the response was %d %q", re.StatusCode, re.Body, sc.last.status, sc.last.body))
 		}
 		return fmt.Sprintf("rsperr %d", re.StatusCode)
 	}
 	return "err"
+}
+
+// c12Received: the octets of the body the client could read.
+func c12Received(r *c12Rsp) []byte {
+	if r.cutAt > 0 && r.cutAt < len(r.body) {
+		return r.body[:r.cutAt]
+	}
+	return r.body
 }
 
 func b64(b []byte) string { return base64.StdEncoding.EncodeToString(b) }
@@ -146,7 +225,7 @@ type c12 struct {
 	other map[string]*verifkit.SKey
 }
 
-var c12Statuses = []int{200, 200, 200, 200, 200, 200, 200, 200, 200, 200, 200, 200, 200, 200, 200, 200, 200, 200, 200, 200, 200, 200, 200, 200, 200, 200, 200, 200, 200, 200, 200, 200, 200, 200, 200, 200, 301, 302, 303, 307, 308, 400, 403, 404, 500, 502, 504}
+var c12Statuses = []int{200, 200, 200, 200, 200, 200, 200, 200, 200, 200, 200, 200, 200, 200, 200, 200, 200, 200, 200, 200, 200, 200, 200, 200, 200, 200, 200, 200, 200, 200, 200, 200, 200, 200, 200, 200, 201, 202, 203, 204, 206, 299, 301, 302, 303, 307, 308, 400, 403, 404, 500, 502, 504}
 
 // ---------------------------------------------------------------------------------------------- get-sth
 
@@ -254,17 +333,56 @@ func (c *c12) sth() {
 			body = f.json()
 		}
 		status := c12Statuses[r.Intn(len(c12Statuses))]
-		c.oneSTH(class, k, status, body)
+		rsp := c12Rsp{status: status, body: body, hdr: c12HeaderPool[r.Intn(len(c12HeaderPool))]}
+		switch r.Intn(30) {
+		case 0:
+			rsp.netErr, class = true, class+"+transport-error"
+		case 1:
+			if len(body) > 1 {
+				rsp.cutAt, class = 1+r.Intn(len(body)-1), class+"+body-read-error"
+			}
+		case 2:
+			rsp.viaRedirect, class = true, class+"+via-redirect"
+		}
+		c.oneSTHOn(nil, class, k, rsp)
 	}
 }
 
 func (c *c12) oneSTH(class string, k *verifkit.SKey, status int, body []byte) {
-	// what the client will see after JSON decoding (encoding/json is trusted)
+	c.oneSTHOn(nil, class, k, c12Rsp{status: status, body: body, hdr: c12HeaderPool[c.r.Intn(len(c12HeaderPool))]})
+}
+
+// oneSTHOn: one GetSTH call, on the session's client when there is one (histories), judged and traced.
+func (c *c12) oneSTHOn(sess *c12Sess, class string, k *verifkit.SKey, rsp c12Rsp) {
+	status, body := rsp.status, c12Received(&rsp)
+	// what the client will see after JSON decoding (encoding/json is trusted); a body that cannot be read completely is not decoded
 	var dec ct.GetSTHResponse
-	jsonOK := json.NewDecoder(bytes.NewReader(body)).Decode(&dec) == nil
+	jsonOK := json.NewDecoder(bytes.NewReader(body)).Decode(&dec) == nil && !(rsp.cutAt > 0)
+	if rsp.cutAt > 0 {
+		dec = ct.GetSTHResponse{}
+	}
 	var sth *ct.SignedTreeHead
 	var err error
-	sc, p := c12Call(k, []c12Rsp{{status, body}}, func(ctx context.Context, cl *LogClient) { sth, err = cl.GetSTH(ctx) })
+	rsps := []c12Rsp{rsp}
+	if rsp.viaRedirect {
+		rsps = []c12Rsp{{status: 302, body: []byte("moved"), hdr: http.Header{"Location": {"http://log.example/prefix/ct/v1/get-sth"}}}, rsp}
+	}
+	sc, p := c12On(sess, k, rsps, func(ctx context.Context, cl *LogClient) { sth, err = cl.GetSTH(ctx) })
+	if rsp.netErr {
+		// no response at all: any error will do, but not a result and not a panic
+		ans := "err"
+		if p != "" {
+			ans = "panic"
+			c.out.Fail("sth transport-error panic", p)
+		} else if err == nil || sth != nil {
+			ans = "ok"
+			c.out.Fail("sth transport-error accepted", "GetSTH returned a result although the transport failed")
+		}
+		c.out.T("nores get-sth", ans)
+		c.out.Count("class:sth:" + class)
+		c.out.Count("outcome:" + ans)
+		return
+	}
 	key := fmt.Sprintf("sth %s status=%d", class, status)
 	var v verifkit.Verdict
 	kind := "-"
@@ -365,28 +483,54 @@ func (c *c12) chains() []c12Chain {
 	}
 }
 
-// c12Leaf: what the SCT signature is over for this submission (built by the repository's own leaf builder; C03's subject).
+// c12Leaf: what the SCT signature must be over for this submission — derived WITHOUT the repository's leaf builder
+// (verifkit.IndependentEntry: standard-library X.509, own removal of the poison extension, SHA-256 of the issuer's SPKI).
 func c12Leaf(ch c12Chain, ts uint64) (state string, etype uint64, cert, ikh, tbs []byte) {
-	et := ct.X509LogEntryType
-	if ch.pre {
-		et = ct.PrecertLogEntryType
+	var der [][]byte
+	for _, x := range ch.chain {
+		der = append(der, x.Data)
 	}
-	var leaf *ct.MerkleTreeLeaf
-	var err error
-	if p := verifkit.Guard(func() { leaf, err = ct.MerkleTreeLeafFromRawChain(ch.chain, et, ts) }); p != "" {
-		return "panic", 0, nil, nil, nil
-	}
-	if err != nil {
+	et, cert, ikh, tbs, ok := verifkit.IndependentEntry(der, ch.pre, verifkit.OIDPoison)
+	if !ok {
 		return "err", 0, nil, nil, nil
 	}
-	te := leaf.TimestampedEntry
-	switch te.EntryType {
-	case ct.X509LogEntryType:
-		return "ok", 0, te.X509Entry.Data, nil, nil
-	case ct.PrecertLogEntryType:
-		return "ok", 1, nil, te.PrecertEntry.IssuerKeyHash[:], te.PrecertEntry.TBSCertificate
+	return "ok", et, cert, ikh, tbs
+}
+
+// c12ChainToks: the first three certificates of the submission as the X.509 parsers see them, and the precertificate TBS
+// without its poison extension (own stripping) — the inputs of the model's `leafFromRawChain`.
+//
+//	<pre> <k> {<raw> <fatal> <tbs> <spki> <preissuer>}*k <stripped|none>
+func c12ChainToks(ch c12Chain) string {
+	n := len(ch.chain)
+	if n > 3 {
+		n = 3
 	}
-	return "err", 0, nil, nil, nil
+	toks := []string{verifkit.B(ch.pre), fmt.Sprint(n)}
+	stripped := "none"
+	for i := 0; i < n; i++ {
+		raw := ch.chain[i].Data
+		_, ferr := x509.ParseCertificate(raw) // the repository's lenient parser decides what is fatal (C11)
+		fatal := x509.IsFatal(ferr)
+		var tbs, spki []byte
+		pre := false
+		if sc, err := stdx509.ParseCertificate(raw); err == nil {
+			tbs, spki = sc.RawTBSCertificate, sc.RawSubjectPublicKeyInfo
+			for _, eku := range sc.UnknownExtKeyUsage {
+				if eku.String() == "1.3.6.1.4.1.11129.2.4.4" {
+					pre = true
+				}
+			}
+			if i == 0 {
+				if st, err := verifkit.StripExtension(tbs, verifkit.OIDPoison); err == nil {
+					stripped = verifkit.Hex(st)
+				}
+			}
+		}
+		toks = append(toks, verifkit.Hex(raw), verifkit.B(fatal), verifkit.Hex(tbs), verifkit.Hex(spki), verifkit.B(pre))
+	}
+	toks = append(toks, stripped)
+	return strings.Join(toks, " ")
 }
 
 func (c *c12) add() {
@@ -451,6 +595,15 @@ func (c *c12) add() {
 			class = "id-short"
 			f.id = [][]byte{{1, 2, 3}, {}, keyID[:31]}[r.Intn(3)]
 		case 16:
+			if r.Bool() {
+				class = "id-absent" // what the repository's own tests serve: the SCT must still carry the key's hash
+				if r.Bool() {
+					f.id = nil
+				} else {
+					body = []byte(fmt.Sprintf(`{"sct_version":0,"timestamp":%d,"extensions":%q,"signature":%q}`, f.ts, f.ext, b64(f.sig)))
+				}
+				break
+			}
 			class = "id-long"
 			f.id = append(append([]byte(nil), keyID[:]...), r.Bytes(1+r.Intn(32))...)
 		case 17:
@@ -511,11 +664,13 @@ func (c *c12) add() {
 			body = f.json()
 		}
 		status := c12Statuses[r.Intn(len(c12Statuses))]
-		rsps := []c12Rsp{{status, body}}
+		rsps := []c12Rsp{{status: status, body: body, hdr: c12HeaderPool[r.Intn(len(c12HeaderPool))]}}
 		// attempts answered with a retryable status (or an undecodable 200) before the response under test
 		if r.Intn(5) == 0 {
-			pre := []c12Rsp{{408, []byte("timeout")}, {429, nil}, {503, []byte("{}")}, {200, []byte(`{"sct_version":`)}}[r.Intn(4)]
-			rsps = append([]c12Rsp{pre}, rsps...)
+			for n := 1 + r.Intn(3); n > 0; n-- {
+				pre := []c12Rsp{{status: 408, body: []byte("timeout")}, {status: 429}, {status: 503, body: []byte("{}"), hdr: http.Header{"Retry-After": {"1"}}}, {status: 200, body: []byte(`{"sct_version":`)}}[r.Intn(4)]
+				rsps = append([]c12Rsp{pre}, rsps...)
+			}
 			class += "+after-retry"
 		}
 		c.oneAdd(class, k, ch, rsps)
@@ -523,13 +678,27 @@ func (c *c12) add() {
 }
 
 func (c *c12) oneAdd(class string, k *verifkit.SKey, ch c12Chain, rsps []c12Rsp) {
+	c.oneAddOn(nil, class, k, ch, rsps)
+}
+
+// oneAddOn: one AddChain / AddPreChain call, on the session's client when there is one (histories), judged and traced.
+// For a well-formed chain the call goes, one time in four, through a TemporalLogClient whose single shard is that client.
+func (c *c12) oneAddOn(sess *c12Sess, class string, k *verifkit.SKey, ch c12Chain, rsps []c12Rsp) {
 	var sct *ct.SignedCertificateTimestamp
 	var err error
-	sc, p := c12Call(k, rsps, func(ctx context.Context, cl *LogClient) {
+	viaTemporal := (ch.name == "cert" || ch.name == "precert") && c.r.Intn(4) == 0
+	if viaTemporal {
+		class += "+via-temporal-client"
+	}
+	sc, p := c12On(sess, k, rsps, func(ctx context.Context, cl *LogClient) {
+		var adder AddLogClient = cl
+		if viaTemporal {
+			adder = &TemporalLogClient{Clients: []*LogClient{cl}, intervals: []interval{{}}}
+		}
 		if ch.pre {
-			sct, err = cl.AddPreChain(ctx, ch.chain)
+			sct, err = adder.AddPreChain(ctx, ch.chain)
 		} else {
-			sct, err = cl.AddChain(ctx, ch.chain)
+			sct, err = adder.AddChain(ctx, ch.chain)
 		}
 	})
 	key := fmt.Sprintf("add %s chain=%s", class, ch.name)
@@ -555,15 +724,9 @@ func (c *c12) oneAdd(class string, k *verifkit.SKey, ch c12Chain, rsps []c12Rsp)
 	}
 	kind, keyID := "-", "-"
 	var v verifkit.Verdict
-	leafTok := "err"
+	leafTok := c12ChainToks(ch)
 	if final != nil {
 		st, et, cert, ikh, tbs := c12Leaf(ch, final.Timestamp)
-		switch st {
-		case "ok":
-			leafTok = fmt.Sprintf("ok %d %s %s %s", et, verifkit.Hex(cert), verifkit.Hex(ikh), verifkit.Hex(tbs))
-		default:
-			leafTok = st
-		}
 		if k != nil {
 			if h, _, sg, ok := c12ParseDS(final.Signature); ok {
 				if st == "ok" {
@@ -647,7 +810,10 @@ func (c *c12) plain() {
 	proof := fmt.Sprintf(`[%q,%q]`, b64(r.Bytes(32)), b64(r.Bytes(32)))
 	eps := []ep{
 		{"get-sth-consistency", []byte(`{"consistency":` + proof + `}`),
-			func(b []byte) bool { var x ct.GetSTHConsistencyResponse; return json.NewDecoder(bytes.NewReader(b)).Decode(&x) == nil },
+			func(b []byte) bool {
+				var x ct.GetSTHConsistencyResponse
+				return json.NewDecoder(bytes.NewReader(b)).Decode(&x) == nil
+			},
 			func(ctx context.Context, cl *LogClient) (interface{}, error) {
 				v, err := cl.GetSTHConsistency(ctx, 3, 9)
 				if err != nil && v != nil {
@@ -656,7 +822,10 @@ func (c *c12) plain() {
 				return nil, err
 			}},
 		{"get-proof-by-hash", []byte(`{"leaf_index":5,"audit_path":` + proof + `}`),
-			func(b []byte) bool { var x ct.GetProofByHashResponse; return json.NewDecoder(bytes.NewReader(b)).Decode(&x) == nil },
+			func(b []byte) bool {
+				var x ct.GetProofByHashResponse
+				return json.NewDecoder(bytes.NewReader(b)).Decode(&x) == nil
+			},
 			func(ctx context.Context, cl *LogClient) (interface{}, error) {
 				v, err := cl.GetProofByHash(ctx, []byte("hash"), 9)
 				if v == nil {
@@ -665,7 +834,10 @@ func (c *c12) plain() {
 				return v, err
 			}},
 		{"get-entry-and-proof", []byte(`{"leaf_input":"AAAA","extra_data":"AAAA","audit_path":` + proof + `}`),
-			func(b []byte) bool { var x ct.GetEntryAndProofResponse; return json.NewDecoder(bytes.NewReader(b)).Decode(&x) == nil },
+			func(b []byte) bool {
+				var x ct.GetEntryAndProofResponse
+				return json.NewDecoder(bytes.NewReader(b)).Decode(&x) == nil
+			},
 			func(ctx context.Context, cl *LogClient) (interface{}, error) {
 				v, err := cl.GetEntryAndProof(ctx, 1, 9)
 				if v == nil {
@@ -674,7 +846,10 @@ func (c *c12) plain() {
 				return v, err
 			}},
 		{"get-entries-raw", []byte(`{"entries":[{"leaf_input":"AAAA","extra_data":"AAAA"}]}`),
-			func(b []byte) bool { var x ct.GetEntriesResponse; return json.NewDecoder(bytes.NewReader(b)).Decode(&x) == nil },
+			func(b []byte) bool {
+				var x ct.GetEntriesResponse
+				return json.NewDecoder(bytes.NewReader(b)).Decode(&x) == nil
+			},
 			func(ctx context.Context, cl *LogClient) (interface{}, error) {
 				v, err := cl.GetRawEntries(ctx, 0, 3)
 				if v == nil {
@@ -696,7 +871,7 @@ func (c *c12) plain() {
 				jsonOK := e.dec(body)
 				var res interface{}
 				var err error
-				sc, p := c12Call(c.keys[0], []c12Rsp{{st, body}}, func(ctx context.Context, cl *LogClient) { res, err = e.call(ctx, cl) })
+				sc, p := c12Call(c.keys[0], []c12Rsp{{status: st, body: body, hdr: c12HeaderPool[r.Intn(len(c12HeaderPool))]}}, func(ctx context.Context, cl *LogClient) { res, err = e.call(ctx, cl) })
 				key := fmt.Sprintf("get %s %s status=%d", e.name, bd[0], st)
 				ans := "ok"
 				switch {
@@ -736,7 +911,7 @@ func (c *c12) plain() {
 				}
 				var roots []ct.ASN1Cert
 				var err error
-				sc, p := c12Call(nil, []c12Rsp{{st, body}}, func(ctx context.Context, cl *LogClient) { roots, err = cl.GetAcceptedRoots(ctx) })
+				sc, p := c12Call(nil, []c12Rsp{{status: st, body: body}}, func(ctx context.Context, cl *LogClient) { roots, err = cl.GetAcceptedRoots(ctx) })
 				key := fmt.Sprintf("roots status=%d", st)
 				ans := "ok"
 				switch {
@@ -997,44 +1172,194 @@ func (c *c12) entries() {
 		case 1:
 			start, end = -5, -1
 		}
-		var got []ct.LogEntry
-		var err error
-		sc, p := c12Call(c.keys[0], []c12Rsp{{status, body}}, func(ctx context.Context, cl *LogClient) { got, err = cl.GetEntries(ctx, start, end) })
-		key := fmt.Sprintf("ents %s status=%d", class, status)
-		ans := ""
-		switch {
-		case p != "":
-			ans = "panic"
-			c.out.Fail(key+" panic", p)
-		case err != nil:
-			ans = c12Err(c.out, key, err, sc)
-			if got != nil {
-				c.out.Fail(key+" partial-result", fmt.Sprintf("%d entries returned together with an error", len(got)))
+		c.entriesCall(class, status, body, start, end, toks, jsonOK, allOK)
+	}
+}
+
+// entriesCall: one GetEntries call on a fresh client, judged and traced.
+func (c *c12) entriesCall(class string, status int, body []byte, start, end int64, toks []string, jsonOK, allOK bool) {
+	r := c.r
+	var got []ct.LogEntry
+	var err error
+	sc, p := c12Call(c.keys[0], []c12Rsp{{status: status, body: body, hdr: c12HeaderPool[r.Intn(len(c12HeaderPool))]}}, func(ctx context.Context, cl *LogClient) { got, err = cl.GetEntries(ctx, start, end) })
+	key := fmt.Sprintf("ents %s status=%d", class, status)
+	ans := ""
+	switch {
+	case p != "":
+		ans = "panic"
+		c.out.Fail(key+" panic", p)
+	case err != nil:
+		ans = c12Err(c.out, key, err, sc)
+		if got != nil {
+			c.out.Fail(key+" partial-result", fmt.Sprintf("%d entries returned together with an error", len(got)))
+		}
+		if ans == "err" && sc.last != nil {
+			fk := key + " error-without-status"
+			if status == 200 && jsonOK && !allOK {
+				fk = "ents undecodable-entry bare-error"
 			}
-			if ans == "err" && sc.last != nil {
-				fk := key + " error-without-status"
-				if status == 200 && jsonOK && !allOK {
-					fk = "ents undecodable-entry bare-error"
-				}
-				c.out.Fail(fk, "a response was received ("+fmt.Sprint(sc.last.status)+") but the error carries neither status nor body: "+err.Error())
+			c.out.Fail(fk, "a response was received ("+fmt.Sprint(sc.last.status)+") but the error carries neither status nor body: "+err.Error())
+		}
+	default:
+		ans = fmt.Sprintf("ok %d", len(got))
+		for i := range got {
+			e := got[i]
+			if e.Index != start+int64(i) {
+				c.out.Fail(key+" index", fmt.Sprint(e.Index))
 			}
+			ans += " " + c12Show(&ct.RawLogEntry{Index: e.Index, Leaf: e.Leaf, Cert: c12Submitted(&e), Chain: e.Chain})
+		}
+		if status != 200 || !jsonOK || !allOK {
+			c.out.Fail(key+" bad-response-accepted", ans)
+		}
+	}
+	ntok := len(toks)
+	c.out.T(strings.TrimSpace(fmt.Sprintf("ents %d %d %d %s %d %s", start, end, status, verifkit.B(jsonOK), ntok, strings.Join(toks, " "))), ans)
+	c.out.Count("class:ents:" + class)
+	c.out.Count("outcome:" + strings.Fields(ans)[0])
+
+}
+
+// oneEntries: GetEntries over the given genuine pool entries.
+func (c *c12) oneEntries(class string, status int, body []byte, start, end int64, idx []int, pool []c12Entry) {
+	var toks []string
+	for _, i := range idx {
+		toks = append(toks, fmt.Sprintf("%s %s 0", verifkit.Hex(pool[i].leaf), verifkit.Hex(pool[i].extra)))
+	}
+	var dec ct.GetEntriesResponse
+	jsonOK := json.NewDecoder(bytes.NewReader(body)).Decode(&dec) == nil
+	c.entriesCall(class, status, body, start, end, toks, jsonOK, true)
+}
+
+// ---------------------------------------------------------------------------------------------- one client, several calls
+
+// histories: 2-4 calls on ONE LogClient, so that anything the client remembers between calls is exercised: the same tree
+// head re-served with another signature (foreign key, last octet flipped), another head with the signature of the first,
+// good after bad and bad after good; for add-chain the same submission answered with a re-served SCT whose signature is
+// corrupted.  Every call is judged exactly like a first call: whatever is returned must verify under the configured key.
+func (c *c12) histories() {
+	r := c.r
+	n := verifkit.N(40, 1500)
+	for it := 0; it < n; it++ {
+		k := c.keys[r.Intn(len(c.keys))]
+		o := c.other[k.Kind]
+		mk := func(size, ts uint64, root []byte, signer *verifkit.SKey, over sthFields) sthFields {
+			f := sthFields{size: size, ts: ts, root: root}
+			f.sig = c12DS(4, c12SigAlg(signer), signer.Sign(4, verifkit.STHSigInput(0, over.ts, over.size, over.root)))
+			return f
+		}
+		h1 := sthFields{size: 1 + r.U64()>>40, ts: r.U64() >> 20, root: r.Bytes(32)}
+		h2 := sthFields{size: h1.size + 1 + uint64(r.Intn(5)), ts: h1.ts + 1000, root: r.Bytes(32)}
+		good1 := mk(h1.size, h1.ts, h1.root, k, h1)
+		good2 := mk(h2.size, h2.ts, h2.root, k, h2)
+		flipped := good1
+		flipped.sig = append([]byte(nil), good1.sig...)
+		flipped.sig[len(flipped.sig)-1] ^= 1
+		steps := map[string]sthFields{
+			"good":                             good1,
+			"good-resigned":                    mk(h1.size, h1.ts, h1.root, k, h1),
+			"same-head-foreign-key-signature":  mk(h1.size, h1.ts, h1.root, o, h1),
+			"same-head-last-octet-flipped":     flipped,
+			"same-head-empty-signature":        {size: h1.size, ts: h1.ts, root: h1.root, sig: []byte{4, byte(c12SigAlg(k)), 0, 0}},
+			"other-head-signature-of-first":    {size: h2.size, ts: h2.ts, root: h2.root, sig: good1.sig},
+			"other-head-good":                  good2,
+			"other-head-foreign-key-signature": mk(h2.size, h2.ts, h2.root, o, h2),
+			"same-head-signature-over-other":   mk(h1.size, h1.ts, h1.root, k, h2),
+		}
+		names := []string{"good", "good-resigned", "same-head-foreign-key-signature", "same-head-last-octet-flipped", "same-head-empty-signature",
+			"other-head-signature-of-first", "other-head-good", "other-head-foreign-key-signature", "same-head-signature-over-other"}
+		var seq []string
+		switch r.Intn(4) {
+		case 0: // bad after good
+			seq = []string{"good", names[2+r.Intn(4)]}
+		case 1: // good after bad
+			seq = []string{names[2+r.Intn(4)], "good", names[2+r.Intn(7)]}
+		case 2:
+			seq = []string{"good", "good-resigned", names[2+r.Intn(7)], "other-head-good"}
 		default:
-			ans = fmt.Sprintf("ok %d", len(got))
-			for i := range got {
-				e := got[i]
-				if e.Index != start+int64(i) {
-					c.out.Fail(key+" index", fmt.Sprint(e.Index))
-				}
-				ans += " " + c12Show(&ct.RawLogEntry{Index: e.Index, Leaf: e.Leaf, Cert: c12Submitted(&e), Chain: e.Chain})
-			}
-			if status != 200 || !jsonOK || !allOK {
-				c.out.Fail(key+" bad-response-accepted", ans)
+			for j := 2 + r.Intn(3); j > 0; j-- {
+				seq = append(seq, names[r.Intn(len(names))])
 			}
 		}
-		ntok := len(toks)
-		c.out.T(strings.TrimSpace(fmt.Sprintf("ents %d %d %d %s %d %s", start, end, status, verifkit.B(jsonOK), ntok, strings.Join(toks, " "))), ans)
-		c.out.Count("class:ents:" + class)
-		c.out.Count("outcome:" + strings.Fields(ans)[0])
+		if e := c12Session(k, func(s *c12Sess) {
+			for j, nm := range seq {
+				c.oneSTHOn(s, fmt.Sprintf("history[%d/%d]:%s", j+1, len(seq), nm), k, c12Rsp{status: 200, body: steps[nm].json()})
+			}
+		}); e != "" {
+			c.out.Fail("sth history setup", e)
+		}
+	}
+	// add-chain: the same submission, several times, on one client
+	chains := c.chains()
+	for it := 0; it < verifkit.N(30, 1000); it++ {
+		k := c.keys[r.Intn(len(c.keys))]
+		o := c.other[k.Kind]
+		ch := chains[[]int{0, 6}[r.Intn(2)]]
+		keyID := sha256.Sum256(k.SPKI)
+		ts := r.U64() >> 20
+		_, et, cert, ikh, tbs := c12Leaf(ch, ts)
+		in := verifkit.SCTSigInput(0, ts, et, cert, ikh, tbs, nil)
+		good := sctFields{id: keyID[:], ts: ts, sig: c12DS(4, c12SigAlg(k), k.Sign(4, in))}
+		foreign := good
+		foreign.sig = c12DS(4, c12SigAlg(o), o.Sign(4, in))
+		flipped := good
+		flipped.sig = append([]byte(nil), good.sig...)
+		flipped.sig[len(flipped.sig)-1] ^= 1
+		later := good
+		later.ts = ts + 1 // the signature of the first SCT re-served under another timestamp
+		steps := map[string]sctFields{"good": good, "re-served-foreign-key-signature": foreign, "re-served-last-octet-flipped": flipped, "re-served-other-timestamp": later}
+		names := []string{"good", "re-served-foreign-key-signature", "re-served-last-octet-flipped", "re-served-other-timestamp"}
+		var seq []string
+		switch r.Intn(3) {
+		case 0:
+			seq = []string{"good", names[1+r.Intn(3)]}
+		case 1:
+			seq = []string{names[1+r.Intn(3)], "good", names[1+r.Intn(3)]}
+		default:
+			seq = []string{"good", "good", names[1+r.Intn(3)], "good"}
+		}
+		if e := c12Session(k, func(s *c12Sess) {
+			for j, nm := range seq {
+				c.oneAddOn(s, fmt.Sprintf("history[%d/%d]:%s", j+1, len(seq), nm), k, ch, []c12Rsp{{status: 200, body: steps[nm].json()}})
+			}
+		}); e != "" {
+			c.out.Fail("add history setup", e)
+		}
+	}
+}
+
+// ---------------------------------------------------------------------------------------------- status x VALID body, every method
+
+// statusMatrix: every method with a perfectly valid body under every 2xx status other than 200 (and a few more): a status
+// other than 200 is an error carrying the status and the body, whatever the body says.
+func (c *c12) statusMatrix() {
+	r := c.r
+	chains := c.chains()
+	statuses := []int{200, 201, 202, 203, 204, 205, 206, 207, 226, 299, 300, 304, 400, 500}
+	pool := c.entryPool()
+	for _, st := range statuses {
+		for _, k := range c.keys {
+			// get-sth
+			f := sthFields{size: r.U64() >> 30, ts: r.U64() >> 20, root: r.Bytes(32)}
+			f.sig = c12DS(4, c12SigAlg(k), k.Sign(4, verifkit.STHSigInput(0, f.ts, f.size, f.root)))
+			c.oneSTHOn(nil, "status-matrix:valid", k, c12Rsp{status: st, body: f.json()})
+			// add-chain, add-pre-chain
+			for _, ci := range []int{0, 6} {
+				ch := chains[ci]
+				keyID := sha256.Sum256(k.SPKI)
+				ts := r.U64() >> 20
+				_, et, cert, ikh, tbs := c12Leaf(ch, ts)
+				sf := sctFields{id: keyID[:], ts: ts, sig: c12DS(4, c12SigAlg(k), k.Sign(4, verifkit.SCTSigInput(0, ts, et, cert, ikh, tbs, nil)))}
+				c.oneAddOn(nil, "status-matrix:valid", k, ch, []c12Rsp{{status: st, body: sf.json()}})
+			}
+		}
+		// get-entries with genuine entries
+		type je struct {
+			LeafInput []byte `json:"leaf_input"`
+			ExtraData []byte `json:"extra_data"`
+		}
+		body, _ := json.Marshal(map[string]interface{}{"entries": []je{{pool[0].leaf, pool[0].extra}, {pool[3].leaf, pool[3].extra}}})
+		c.oneEntries("status-matrix:valid", st, body, 0, 1, []int{0, 3}, pool)
 	}
 }
 
@@ -1061,4 +1386,6 @@ func TestVerifC12(t *testing.T) {
 	c.add()
 	c.plain()
 	c.entries()
+	c.statusMatrix()
+	c.histories()
 }
